@@ -17,7 +17,21 @@ FRAMING_NAMES = {
 }
 
 
+def _work(task):
+    """one corpus pair in a worker process: the input and all its mutations -> [(key, message, case)]"""
+    cls_path, data, want, framing, muts = task
+    cls = corpus.resolve(cls_path)
+    out = []
+    for m in [data] + muts:
+        case = {'kind': 'corpus', 'cls': cls_path, 'data': hx(m), 'want': list(want)}
+        for key, msg in evaluate(cls, m, want, framing):
+            out.append((key, msg, case))
+    return out, 1 + len(muts)
+
+
 def run(run, want, tier):
+    import multiprocessing
+    import os
     import random
     pairs = corpus.harvest()
     n_mut = {'quick': 6, 'thorough': 60}[tier]
@@ -27,29 +41,33 @@ def run(run, want, tier):
     # explores with the run's seed.
     rng = random.Random(20260927) if tier == 'quick' else run.rng
     classes = set()
+    tasks = []
     for cls, data in pairs:
         if not cls.__module__.startswith('cryptoparser.'):
             continue        # helper classes defined by the repository's tests
         name = cls.__name__
         classes.add(name)
-        framing = name in FRAMING_NAMES
-        case = {'kind': 'corpus', 'cls': corpus.class_path(cls), 'data': hx(data), 'want': list(want)}
-        run.evaluations += 1
         if data.strip(b'\x00'):
-            run.note_nontrivial((name, case['data']))
-        for key, msg in evaluate(cls, data, want, framing):
-            run.finding(key, msg, case)
+            run.note_nontrivial((name, hx(data)))
+        muts = []
         if any(w in want for w in ('C02', 'C03', 'C05')):
             muts = clsrun.mutations(rng, data, n_mut)
             if 'C02' in want or 'C03' in want:
                 muts = muts + structured_mutations(data, tier)
-            for m in muts:
-                mcase = {'kind': 'corpus', 'cls': corpus.class_path(cls), 'data': hx(m), 'want': list(want)}
-                run.evaluations += 1
-                for key, msg in evaluate(cls, m, want, framing):
-                    run.finding(key, msg, mcase)
+        tasks.append((corpus.class_path(cls), data, tuple(want), name in FRAMING_NAMES, muts))
+    workers = max(1, min(16, int(os.environ.get('VERIF_JOBS', '0')) or (os.cpu_count() or 4)))
+    if workers > 1 and len(tasks) > 8:
+        with multiprocessing.get_context('fork').Pool(workers) as pool:
+            results = pool.map(_work, tasks, chunksize=4)
+    else:
+        results = [_work(t) for t in tasks]
+    for found, n in results:          # in corpus order: the report does not depend on scheduling
+        run.evaluations += n
+        for key, msg, case in found:
+            run.finding(key, msg, case)
     run.count('corpus', 'classes', len(classes))
     run.count('corpus', 'inputs', len(pairs))
+    run.count('corpus', 'workers', workers)
     run.notes.append('corpus: {} accepted inputs of {} classes harvested from the repository test-suite at run time, '
                      'evaluated on the implementation only (classes outside the Lean model)'.format(len(pairs), len(classes)))
 
